@@ -20,7 +20,8 @@ COMPILE_TIMEOUT_S = 900
 
 
 def toolchain_id(tc):
-    return "%s/%s" % (tc[0], tc[1])
+    # (compiler, standard[, optimisation level]); -O0 unless stated
+    return "%s/%s" % (tc[0], tc[1]) + ("/" + tc[2] if len(tc) > 2 and tc[2] != "-O0" else "")
 
 
 class Builder:
@@ -128,7 +129,7 @@ class Builder:
                 # with one exception that cannot touch Au: -Werror=format.  Only the probe itself
                 # calls printf; this guards the probe generator against passing a wrong type
                 # through varargs, which would be undefined behaviour inside the oracle.
-                cmd = [cxx, "-std=" + tc[1], "-O0", "-Wformat", "-Werror=format", "-I", inc, "-c", p, "-o", o]
+                cmd = [cxx, "-std=" + tc[1], tc[2] if len(tc) > 2 else "-O0", "-Wformat", "-Werror=format", "-I", inc, "-c", p, "-o", o]
                 r = subprocess.run(cmd, cwd=src, stdout=subprocess.PIPE, stderr=subprocess.STDOUT, timeout=COMPILE_TIMEOUT_S)
                 if r.returncode != 0:
                     return {"ok": False, "stage": "compile:" + name, "diag": _head(r.stdout, d), "stdout": "", "rc": None}
